@@ -925,6 +925,69 @@ impl Book {
 
 const NAMES: [&str; 3] = ["Sheet1", "Ŝ 2 é", "третий😀"];
 
+/// MS-OVBA container of literal-only chunks (decodable by construction)
+fn ovba_literal(data: &[u8]) -> Vec<u8> {
+    let mut out = vec![1u8];
+    for block in data.chunks(3000) {
+        let mut body = vec![];
+        for g in block.chunks(8) {
+            body.push(0u8);
+            body.extend_from_slice(g);
+        }
+        let h = 0xB000u16 | (body.len() as u16 - 1);
+        out.extend_from_slice(&h.to_le_bytes());
+        out.extend(body);
+    }
+    out
+}
+
+/// a minimal VBA project as flat compound-file entries: the `_VBA_PROJECT_CUR` entry, the `dir` stream (one
+/// procedural module, code page 1252, no references) and the module stream, whose compressed source is longer
+/// than 4096 bytes so that it lives in regular sectors
+fn vba_project_streams(rng: &mut Rng) -> Vec<(String, Vec<u8>)> {
+    fn var(out: &mut Vec<u8>, id: u16, payload: &[u8]) {
+        out.extend_from_slice(&id.to_le_bytes());
+        out.extend_from_slice(&(payload.len() as u32).to_le_bytes());
+        out.extend_from_slice(payload);
+    }
+    let mut d = vec![];
+    var(&mut d, 0x0001, &1u32.to_le_bytes()); // PROJECTSYSKIND
+    var(&mut d, 0x0002, &0x0409u32.to_le_bytes()); // PROJECTLCID
+    var(&mut d, 0x0014, &0x0409u32.to_le_bytes()); // PROJECTLCIDINVOKE
+    var(&mut d, 0x0003, &1252u16.to_le_bytes()); // PROJECTCODEPAGE
+    var(&mut d, 0x0004, b"VBAProject"); // PROJECTNAME
+    var(&mut d, 0x0005, b""); // PROJECTDOCSTRING
+    var(&mut d, 0x0040, b"");
+    var(&mut d, 0x0006, b""); // PROJECTHELPFILEPATH
+    var(&mut d, 0x003D, b"");
+    var(&mut d, 0x0007, &0u32.to_le_bytes()); // PROJECTHELPCONTEXT
+    var(&mut d, 0x0008, &0u32.to_le_bytes()); // PROJECTLIBFLAGS
+    d.extend_from_slice(&[0x09, 0x00, 0x04, 0x00, 0x00, 0x00, 1, 0, 0, 0, 1, 0]); // PROJECTVERSION (12 bytes)
+    var(&mut d, 0x000C, b""); // PROJECTCONSTANTS
+    var(&mut d, 0x003C, b"");
+    var(&mut d, 0x000F, &1u16.to_le_bytes()); // PROJECTMODULES: one module
+    var(&mut d, 0x0013, &0xFFFFu16.to_le_bytes()); // PROJECTCOOKIE
+    var(&mut d, 0x0019, b"Module1"); // MODULENAME
+    var(&mut d, 0x0047, &"Module1".encode_utf16().flat_map(|u| u.to_le_bytes()).collect::<Vec<u8>>());
+    var(&mut d, 0x001A, b"Module1"); // MODULESTREAMNAME
+    var(&mut d, 0x0032, &"Module1".encode_utf16().flat_map(|u| u.to_le_bytes()).collect::<Vec<u8>>());
+    var(&mut d, 0x001C, b""); // MODULEDOCSTRING
+    var(&mut d, 0x0048, b"");
+    var(&mut d, 0x0031, &0u32.to_le_bytes()); // MODULEOFFSET: the source starts at 0
+    var(&mut d, 0x001E, &0u32.to_le_bytes()); // MODULEHELPCONTEXT
+    var(&mut d, 0x002C, &0xFFFFu16.to_le_bytes()); // MODULECOOKIE
+    var(&mut d, 0x0021, b""); // procedural module
+    var(&mut d, 0x002B, b""); // module terminator
+    var(&mut d, 0x0010, b""); // dir terminator
+    let mut src = b"Attribute VB_Name = \"Module1\"\r\nSub Hello()\r\n".to_vec();
+    let n = 4200 + rng.below(6000) as usize;
+    while src.len() < n {
+        src.extend_from_slice(format!("    ' {:016x}\r\n", rng.next()).as_bytes());
+    }
+    src.extend_from_slice(b"End Sub\r\n");
+    vec![("_VBA_PROJECT_CUR".to_string(), vec![]), ("dir".to_string(), ovba_literal(&d)), ("Module1".to_string(), ovba_literal(&src))]
+}
+
 /// run one workbook; returns the failures (kind, sig, impl, model, expect) of its first failing sheet
 fn run_book(b: &Book, drv: &mut Driver, substreams: Option<Vec<Vec<u8>>>) -> Vec<(String, String, String, String, String)> {
     let mut rng = Rng::new(b.seed);
@@ -979,6 +1042,25 @@ fn run_book(b: &Book, drv: &mut Driver, substreams: Option<Vec<Vec<u8>>>) -> Vec
                 1 => vec![("Book".into(), decoy), ("Workbook".into(), wb)],
                 _ => vec![("Workbook".into(), wb), ("Book".into(), decoy)],
             };
+            verif_harness::cfbw::write_cfb(&streams, &opts, &mut rng)
+        }
+        3 => {
+            // the workbook next to a VBA project (`_VBA_PROJECT_CUR`, `dir`, one module stream in regular sectors),
+            // both streams >= 4096 bytes, allocation table / directory / mini stream in FRONT of them (sequential
+            // layout, tables first): `Xls::new` reads the project first and the workbook afterwards from the same
+            // container — the cells must not depend on the project being there
+            let mut wb = book.workbook_stream(&mut rng);
+            if wb.len() < 4200 {
+                let pad = 4200 - wb.len() + rng.below(3000) as usize;
+                wb.extend(vec![0u8; pad]);
+            }
+            let mut streams: Vec<(String, Vec<u8>)> = vba_project_streams(&mut rng);
+            let at = rng.below(streams.len() as u64 + 1) as usize;
+            streams.insert(at, ("Workbook".into(), wb));
+            let mut opts = verif_harness::cfbw::CfbOpts::default();
+            opts.dir_first = rng.chance(3, 4);
+            opts.placement = if rng.chance(3, 4) { 0 } else { rng.below(3) as u8 };
+            opts.unused_dirs = rng.below(3) as usize;
             verif_harness::cfbw::write_cfb(&streams, &opts, &mut rng)
         }
         _ => book.to_bytes(&mut rng),
@@ -1598,7 +1680,7 @@ fn main() {
          in 65536x256 with bias to the first/last row and column, values: doubles of 9 classes, strings of 3 alphabets, booleans, 8 errors; \
          layout: NUMBER / RK word of any of the 4 kinds that denotes the number / invalid RK word (fallback) / MULRK joins / LABEL 8|16 bit / \
          LABELSST / BOOLERR / FORMULA(+STRING, blank-string type 3) / ignorable records before cells and between FORMULA and STRING; \
-         XF table with date and duration formats given by built-in ids, custom FORMAT ids >= 164 or FORMAT records redefining a built-in slot, 1904 flag, SST with CONTINUE cuts, sheet substreams stored in any permutation of the tab order, in 3 files of 8 a decoy stream in the container: a second `Workbook` stream after the real one, or a `Book` stream before / after it) encoded by the Lean encoder, wrapped by xlsw+cfbw with a \
+         XF table with date and duration formats given by built-in ids, custom FORMAT ids >= 164 or FORMAT records redefining a built-in slot, 1904 flag, SST with CONTINUE cuts, sheet substreams stored in any permutation of the tab order, in 1 file of 8 a VBA project (module stream and workbook stream both in regular sectors, allocation table and directory in front of them) in the same container, in 3 files of 8 a decoy stream in the container: a second `Workbook` stream after the real one, or a `Book` stream before / after it) encoded by the Lean encoder, wrapped by xlsw+cfbw with a \
          random container layout, read by Xls::new + worksheet_range, compared with Lean `dec` and with the bounding-box/value oracle. \
          B: one workbook per run (3 in thorough) with a shared string table of 65536 + k strings and LABELSST cells on both sides of the 16-bit boundary. \
          MULRK runs, consecutive RK and NUMBER records repeat numbers (same bytes) under XFs of different format classes and keep an XF over different numbers (adjacent and at distance 2). \
